@@ -2,6 +2,7 @@ package rules
 
 import (
 	"fmt"
+	"go/constant"
 	"go/types"
 
 	"golang.org/x/tools/go/ssa"
@@ -18,6 +19,7 @@ func init() {
 			"R2 (slice): where a VMEndorsementMap_Entry is built, Path and the written file path share one basename origin (the gate's result) and Digest derives from sha512.Sum384 of Context.Image. " +
 			"R3 (ESP): the manifest write (file path derived from endorse.ManifestFile) happens only after an endorsement write succeeded; the marshalled map is the object the manifest was parsed into. " +
 			"R4 (CFG): in the function that merges the new entry into the manifest list, no call that drops entries keyed by the new entry's digest or path is reachable after that digest/path was placed in the list (the fresh entry would be dropped with the stale one). " +
+			"R5 every in-repo implementation of ChangeOps.WriteOrCreateFiles replaces a file's contents wholly (os.WriteFile / os.Create, or os.OpenFile with O_TRUNC and without O_APPEND), so a rewritten manifest or endorsement that got shorter keeps no stale tail. " +
 			"Not covered: the four-way merge preserving path/digest uniqueness over histories (a relational invariant over list contents), that the manifest parses back.",
 		Assumptions: []string{"go/types, go/ssa, VTA call graph", "ChangeOps.ReadFile / IsNotFound faithfully report existence"},
 		Run:         runC13,
@@ -424,6 +426,54 @@ func runC13(c *Ctx) {
 	}
 	c.S.Floor("R4", "manifest merge functions in package endorse", 1, nMerge)
 
+	// ---- R5: workspace back ends replace files wholly ----
+	// Every in-repo implementation of ChangeOps.WriteOrCreateFiles writes a file by replacing its contents: the
+	// file-opening primitives in its closure are os.WriteFile / os.Create, or os.OpenFile with O_TRUNC. A write
+	// that keeps the old tail of a longer file leaves a manifest that no longer parses (or a stale entry).
+	{
+		nImpl, nOpen := 0, 0
+		for _, f := range c.P.RepoFunctions() {
+			if c.isTestFunc(f) || f.Name() != "WriteOrCreateFiles" || f.Signature.Recv() == nil || f.Blocks == nil {
+				continue
+			}
+			nImpl++
+			clo := c.reachable([]*ssa.Function{f}, nil)
+			for g := range clo {
+				for _, call := range callsIn(g, func(call ssa.CallInstruction) bool {
+					cal := call.Common().StaticCallee()
+					return cal != nil && cal.Pkg != nil && cal.Pkg.Pkg.Path() == "os" && (cal.Name() == "OpenFile" || cal.Name() == "WriteFile" || cal.Name() == "Create")
+				}) {
+					nOpen++
+					cal := call.Common().StaticCallee()
+					if cal.Name() != "OpenFile" {
+						c.S.OK("R5", load.FuncName(f)+"→"+load.FuncName(g)+":os."+cal.Name(), c.pos(call.Pos()), "replaces the file's contents", false)
+						continue
+					}
+					k, isK := call.Common().Args[1].(*ssa.Const)
+					okFlags := false
+					detail := "the open flags are not a constant"
+					if isK && k.Value != nil {
+						fl := k.Int64()
+						oWronly, ok1 := c.extConstInt("os", "O_WRONLY")
+						oRdwr, ok2 := c.extConstInt("os", "O_RDWR")
+						oTrunc, ok3 := c.extConstInt("os", "O_TRUNC")
+						oAppend, ok4 := c.extConstInt("os", "O_APPEND")
+						if ok1 && ok2 && ok3 && ok4 {
+							writes := fl&(oWronly|oRdwr) != 0
+							okFlags = !writes || (fl&oTrunc != 0 && fl&oAppend == 0)
+							detail = fmt.Sprintf("opened for writing with flags %#x: no O_TRUNC (or O_APPEND): bytes of a longer previous version survive behind the new contents", fl)
+						} else {
+							detail = "os.O_* constants not found"
+						}
+					}
+					c.S.Check(okFlags, "R5", load.FuncName(f)+"→"+load.FuncName(g)+":os.OpenFile", c.pos(call.Pos()), "opened with O_TRUNC", detail)
+				}
+			}
+		}
+		c.S.Floor("R5", "in-repo implementations of ChangeOps.WriteOrCreateFiles", 1, nImpl)
+		c.S.Floor("R5", "file-opening calls in their closures", 1, nOpen)
+	}
+
 	// ---- R3b: marshalled manifest map is the parsed object ----
 	// package-wide: the object handed to prototext.Marshal for the manifest must be (an alias of) the
 	// object the manifest was parsed into; aliases follow helper results (a reader that returns the
@@ -528,4 +578,13 @@ func unwrapIface(v ssa.Value) ssa.Value {
 		return mi.X
 	}
 	return v
+}
+
+// extConstInt: integer value of an external package-level constant.
+func (c *Ctx) extConstInt(pkg, name string) (int64, bool) {
+	v := c.extConst(pkg, name)
+	if v == nil {
+		return 0, false
+	}
+	return constant.Int64Val(constant.ToInt(v))
 }
